@@ -19,6 +19,8 @@ type Ctx struct {
 	R *Report
 	// Thorough is set in the thorough tier.
 	Thorough bool
+
+	doneAtomicIDs bool
 }
 
 type propDef struct {
